@@ -15,8 +15,18 @@ then a command is fed to `l`'s sender, flushed at once (`let _ = lane_tx.flush()
 `Cfg.eager = false` is the same loop WITHOUT the immediate flush: the theorems hold for both, i.e. they rest on the
 `needs_flush` discipline alone (the driver runs `eager = true`, the code).
 
+Map-like lanes (`Cfg.mapLanes`): `feed_frame` first runs `extract_header`; a body that is not a map operation
+(`Cfg.invalid`) is REJECTED (`LaneSendError::Extraction` → `BadEnvelope` to the write task, nothing reaches the lane,
+`needs_flush` untouched); an accepted one is `sender.send` = feed + flush.
+
+Command counters (C20): for a command envelope of an existing lane the read task first bumps the AGGREGATE reporter
+(`aggregate_reporter.count_commands(1)` in `read_task`), then `feed_frame` bumps the LANE's reporter — before the
+body is inspected or anything is written, so rejected commands are counted by both. Commands for unknown lanes and
+link / sync / unlink envelopes are counted by neither. A snapshot (`UplinkReportReader::snapshot`) takes a counter's
+value and resets it (`snapLane`, `snapAgg`).
+
 Not modelled (assumed away, see NOTES-C14x): lane endpoints that fail (`LaneSendError::Io`, lane removed), lanes
-registered after the start, the stop vote, map-like lanes (`extract_header`, `BadEnvelope`).
+registered after the start, the stop vote.
 -/
 import SwimVerif.Model.Util
 
@@ -52,6 +62,13 @@ def upd {β : Type} (f : Nat → β) (k : Nat) (v : β) : Nat → β := fun k' =
 structure Cfg where
   known : List Nat          -- `name_mapping`: the lanes registered (here: before the first envelope)
   eager : Bool := true      -- the `lane_tx.flush().await` right after a successful `feed_frame`
+  mapLanes : List Nat := [] -- the lanes with `UplinkKind::Map` (their sender inspects the body)
+  invalid : Nat → Bool := fun _ => false   -- bodies for which `extract_header` fails
+
+/-- does lane `l`'s sender reject the envelope (`LaneSendError::Extraction`)? -/
+def Cfg.rejects (c : Cfg) (l : Nat) : Env → Bool
+  | .command b => c.mapLanes.contains l && c.invalid b
+  | _ => false
 
 /-- an envelope in a remote's channel: target lane and operation -/
 abbrev Msg := Nat × Env
@@ -64,13 +81,21 @@ structure St where
   sent : List (Nat × Msg) := []             -- every envelope sent `(remote, lane, op)`, in global order
   picked : List (Nat × Msg) := []           -- every envelope the read task has processed, in processing order
   delivered : List (Nat × Req) := []        -- `(lane, request)` read by the agent, in order
-  coord : List (Nat × Msg) := []            -- `RwCoordinationMessage`s sent to the write task (Link / Unlink / UnknownLane)
+  coord : List (Nat × Msg) := []            -- `RwCoordinationMessage`s sent to the write task (Link / Unlink / UnknownLane / BadEnvelope)
+  -- command counters (`UplinkCounters.command_count` of each lane's reporter and of the aggregate reporter)
+  laneCount : Nat → Nat := fun _ => 0
+  aggCount : Nat := 0
+  -- ghost: the sum of the snapshots taken so far
+  laneSnap : Nat → Nat := fun _ => 0
+  aggSnap : Nat := 0
 
 inductive Op
   | send (r : Nat) (l : Nat) (e : Env)   -- remote `r` writes an envelope for lane `l`
   | pick (r : Nat)                       -- `remotes.next()` yields `r`'s next envelope: one `Envelope` iteration
   | idle                                 -- nothing immediately ready: the joined `flush_lane` completes
   | take (l : Nat)                       -- the agent reads one request from lane `l`'s channel
+  | snapLane (l : Nat)                   -- `snapshot()` on lane `l`'s report reader (command counter part)
+  | snapAgg                              -- `snapshot()` on the aggregate report reader
   deriving Repr
 
 /-- `flush_lane(&mut lanes, &mut needs_flush)` -/
@@ -85,6 +110,22 @@ def switchTo (s : St) (l : Nat) : St :=
   | none => s
   | some i => if i = l then s else flushLane s
 
+/-- `aggregate_reporter.count_commands(1)` (read task) then `reporter.count_commands(1)` (`feed_frame`) -/
+def countCommand (s : St) (l : Nat) : St :=
+  { s with aggCount := s.aggCount + 1, laneCount := upd s.laneCount l (s.laneCount l + 1) }
+
+/-- `Operation::Command(body)` for an existing lane (after the lane switch): both counters first, then `feed_frame` -/
+def handleCommand (c : Cfg) (s1 : St) (r l b : Nat) : St :=
+  let s2 := countCommand s1 l
+  if c.rejects l (.command b) then
+    -- `LaneSendError::Extraction`: `BadEnvelope` to the write task, nothing for the lane, `needs_flush` untouched
+    { s2 with coord := s2.coord ++ [(r, l, .command b)] }
+  else
+    -- value-like: `sender.feed`; map-like: `sender.send` (= feed + flush); then `flush`, `needs_flush = Some(id)`
+    let fed := (s2.sender l).feed (.command r b)
+    { s2 with sender := upd s2.sender l (if c.eager || c.mapLanes.contains l then fed.flush else fed),
+              needsFlush := some l }
+
 /-- the `ReadTaskEvent::Envelope` branch for an envelope of remote `r` for lane `l` -/
 def handle (c : Cfg) (s : St) (r : Nat) (l : Nat) (e : Env) : St :=
   if c.known.contains l then
@@ -95,10 +136,7 @@ def handle (c : Cfg) (s : St) (r : Nat) (l : Nat) (e : Env) : St :=
     | .sync =>
       -- `start_sync`: `sender.send(Sync(origin))` = feed + flush
       { s1 with sender := upd s1.sender l ((s1.sender l).feed (.sync r)).flush }
-    | .command b =>
-      -- `feed_frame` (value-like: `sender.feed`), then `flush`, then `needs_flush = Some(id)`
-      let fed := (s1.sender l).feed (.command r b)
-      { s1 with sender := upd s1.sender l (if c.eager then fed.flush else fed), needsFlush := some l }
+    | .command b => handleCommand c s1 r l b
   else
     -- non-existent lane: `flush_lane`; a command is dropped silently, anything else reports `UnknownLane`
     let s1 := flushLane s
@@ -119,24 +157,27 @@ def step (c : Cfg) (s : St) : Op → St
     | [] => s
     | q :: rest =>
       { s with sender := upd s.sender l { (s.sender l) with chan := rest }, delivered := s.delivered ++ [(l, q)] }
+  | .snapLane l =>
+    { s with laneSnap := upd s.laneSnap l (s.laneSnap l + s.laneCount l), laneCount := upd s.laneCount l 0 }
+  | .snapAgg => { s with aggSnap := s.aggSnap + s.aggCount, aggCount := 0 }
 
 def run (c : Cfg) (s : St) (ops : List Op) : St := ops.foldl (step c) s
 
 /-! ### Views -/
 
-/-- the request a lane gets for an envelope (none for link / unlink) -/
-def reqOf (r : Nat) : Env → Option Req
-  | .command b => some (.command r b)
+/-- the request lane `l` gets for an envelope of remote `r` (none for link / unlink and for a rejected command) -/
+def reqOf (c : Cfg) (l r : Nat) : Env → Option Req
+  | .command b => if c.rejects l (.command b) then none else some (.command r b)
   | .sync => some (.sync r)
   | _ => none
 
 /-- requests among envelopes `(remote, lane, op)` addressed to lane `l` -/
-def reqsFor (l : Nat) (ms : List (Nat × Msg)) : List Req :=
-  ms.filterMap (fun p => if p.2.1 = l then reqOf p.1 p.2.2 else none)
+def reqsFor (c : Cfg) (l : Nat) (ms : List (Nat × Msg)) : List Req :=
+  ms.filterMap (fun p => if p.2.1 = l then reqOf c l p.1 p.2.2 else none)
 
 /-- requests among `(lane, op)` envelopes of remote `r` addressed to lane `l` -/
-def reqsOfInbox (r l : Nat) (ms : List Msg) : List Req :=
-  ms.filterMap (fun m => if m.1 = l then reqOf r m.2 else none)
+def reqsOfInbox (c : Cfg) (r l : Nat) (ms : List Msg) : List Req :=
+  ms.filterMap (fun m => if m.1 = l then reqOf c l r m.2 else none)
 
 /-- the part of a request stream that comes from remote `r` -/
 def fromRemote (r : Nat) (qs : List Req) : List Req :=
@@ -154,7 +195,15 @@ def St.laneStream (s : St) (l : Nat) : List Req :=
 the runtime settle after a `send`: the envelope is picked and the loop goes idle) | `take <l> <n>` (read up to `n`
 requests that are available on lane `l`; output `got <requests>`) | `drain` (settle, then read everything from every
 lane; output `all <lane>:<request>,…`).
-A line starting with `!send` (no settling: several remotes race) is only judged by the monitor. -/
+A line starting with `!send` (no settling: several remotes race) is only judged by the monitor.
+`new <nlanes> <cap> <k>`: the last `k` lanes are map lanes; a command body `b ≥ 900000` is sent as plain text (not a
+map operation: the map lane's sender rejects it), any other body to a map lane as `@update(key:b) b`.
+`snap`: snapshot every lane's report reader, then the aggregate's; output `snap <c0>,<c1>,… agg=<a>` (command counts). -/
+
+def invalidBody (b : Nat) : Bool := decide (900000 ≤ b)
+
+def mkCfg (n k : Nat) : Cfg :=
+  { known := List.range n, mapLanes := (List.range n).filter (fun l => decide (n ≤ l + k)), invalid := invalidBody }
 
 structure Sys where
   cfg : Cfg := { known := [] }
@@ -182,8 +231,8 @@ def renderReqs (qs : List String) : String := if qs.isEmpty then "-" else ",".in
 
 def stepLine (y : Sys) (line : String) : Sys × String :=
   match words line with
-  | "new" :: n :: _ => match n.toNat? with
-    | some n => ({ cfg := { known := List.range n }, st := {} }, "ok")
+  | "new" :: n :: rest => match n.toNat? with
+    | some n => ({ cfg := mkCfg n (((rest.drop 1).headD "0").toNat?.getD 0), st := {} }, "ok")
     | none => (y, "bad-op")
   | "send" :: r :: l :: rest => match r.toNat?, l.toNat?, parseEnv rest with
     | some r, some l, some e =>
@@ -199,18 +248,48 @@ def stepLine (y : Sys) (line : String) : Sys × String :=
       let t := takeN y.cfg ((acc.1.sender l).chan.length) l acc.1 []
       (t.1, acc.2 ++ t.2.map (fun q => s!"{l}:{q.render}"))) (y.st, [])
     ({ y with st := x.1 }, "all " ++ renderReqs x.2)
+  | ["snap"] =>
+    let counts := y.cfg.known.map y.st.laneCount
+    let s := run y.cfg y.st (y.cfg.known.map Op.snapLane ++ [.snapAgg])
+    ({ y with st := s }, s!"snap {natsToString counts} agg={y.st.aggCount}")
   | _ => (y, "bad-op")
 
 /-! ### Observable-level monitor
 Bodies are unique per case, so a forwarded command identifies its envelope. Per `(remote, lane)` the monitor keeps the
 requests sent and not yet seen at the lane, oldest first. A request read from lane `l` must be the OLDEST outstanding
 request of its remote for `l` (exactly once, per-remote order, right lane, nothing merged or invented); after a
-`drain` nothing may be outstanding for an existing lane (nothing stranded in a sender's buffer). -/
+`drain` nothing may be outstanding for an existing lane (nothing stranded in a sender's buffer).
+
+Command counters (C20, reasons `command-count-*`): the monitor counts the command envelopes sent to each existing lane
+(accepted or rejected by the lane's sender alike) and sums the snapshots. A counter never reports more than was
+received; at a quiescent snapshot (everything sent has been processed: every `send` settled on unbounded lane buffers,
+or a `drain` since the last racing `send`) the sum of a lane's snapshots equals the commands received for it, the
+aggregate's the commands received for all existing lanes — so lanes and aggregate agree. -/
+
+def bumpAt : Nat → List Nat → List Nat
+  | _, [] => []
+  | 0, x :: rest => (x + 1) :: rest
+  | i + 1, x :: rest => x :: bumpAt i rest
+
+def addLists : List Nat → List Nat → List Nat
+  | x :: xs, y :: ys => (x + y) :: addLists xs ys
+  | _, _ => []
+
+/-- first index where the lists differ in the given direction -/
+def anyGt : List Nat → List Nat → Bool
+  | x :: xs, y :: ys => decide (x > y) || anyGt xs ys
+  | _, _ => false
 
 structure Mon where
   nlanes : Nat := 0
+  nmaps : Nat := 0
+  racing : Bool := false          -- lane buffers may fill up: the read task can be blocked after a settled `send`
+  unsettled : Bool := false       -- something sent may not have been processed yet
+  recvLane : List Nat := []       -- commands sent to each existing lane
+  seenLane : List Nat := []       -- sum of the lane's snapshots
+  recvAgg : Nat := 0
+  seenAgg : Nat := 0
   outstanding : List (Nat × Nat × String) := []   -- (remote, lane, rendered request), in send order
-  deriving Repr
 
 /-- remove the first outstanding entry of `(r, l)` if it is `q`; `none` if the oldest entry of `(r, l)` differs -/
 def popOldest (r l : Nat) (q : String) : List (Nat × Nat × String) → Option (List (Nat × Nat × String))
@@ -253,15 +332,39 @@ def Mon.step (m : Mon) (line : String) (out : String) : Mon × Option String :=
     | "!send" :: rest => "send" :: rest
     | _ => ws
   match ws with
-  | "new" :: n :: _ => ({ nlanes := n.toNat?.getD 0 }, none)
+  | "new" :: n :: rest =>
+    let n := n.toNat?.getD 0
+    ({ nlanes := n, nmaps := ((rest.drop 1).headD "0").toNat?.getD 0,
+       racing := decide (((rest.headD "65536").toNat?.getD 65536) < 65536),
+       recvLane := List.replicate n 0, seenLane := List.replicate n 0 }, none)
   | "send" :: r :: l :: rest => match r.toNat?, l.toNat?, parseEnv rest with
     | some r, some l, some e =>
       if l < m.nlanes then
-        match reqOf r e with
-        | some q => ({ m with outstanding := m.outstanding ++ [(r, l, q.render)] }, none)
-        | none => (m, none)
+        let m1 := { m with unsettled := m.unsettled || m.racing || (words line).head? == some "!send" }
+        let m2 := match e with
+          | .command _ => { m1 with recvLane := bumpAt l m1.recvLane, recvAgg := m1.recvAgg + 1 }
+          | _ => m1
+        match reqOf (mkCfg m.nlanes m.nmaps) l r e with
+        | some q => ({ m2 with outstanding := m2.outstanding ++ [(r, l, q.render)] }, none)
+        | none => (m2, none)
       else (m, none)
     | _, _, _ => (m, some "unparsable")
+  | ["snap"] =>
+    match words out with
+    | ["snap", cs, agg] =>
+      let counts := if cs = "-" then some [] else (cs.splitOn ",").mapM String.toNat?
+      match counts, ((agg.drop 4).toString).toNat? with
+      | some counts, some a =>
+        if counts.length ≠ m.nlanes then (m, some "unparsable") else
+        let m' := { m with seenLane := addLists m.seenLane counts, seenAgg := m.seenAgg + a }
+        if anyGt m'.seenLane m'.recvLane then (m', some "command-count-lane-exceeds-received")
+        else if m'.seenAgg > m'.recvAgg then (m', some "command-count-aggregate-exceeds-received")
+        else if m'.unsettled then (m', none)
+        else if anyGt m'.recvLane m'.seenLane then (m', some "command-count-lane-lost")
+        else if m'.seenAgg < m'.recvAgg then (m', some "command-count-aggregate-lost")
+        else (m', none)
+      | _, _ => (m, some "unparsable")
+    | _ => (m, some "unparsable")
   | ["take", l, _] => match l.toNat?, words out with
     | some l, ["got", out] =>
       if out = "-" then (m, none)
@@ -279,7 +382,8 @@ def Mon.step (m : Mon) (line : String) (out : String) : Mon × Option String :=
       match m.seeAll items with
       | (m', some e) => (m', some e)
       | (m', none) =>
-        if m'.outstanding.isEmpty then (m', none) else (m', some "command-stranded-at-quiescence")
+        if m'.outstanding.isEmpty then ({ m' with unsettled := false }, none)
+        else (m', some "command-stranded-at-quiescence")
   | _ => (m, some "unparsable")
 
 end SwimVerif.RF
